@@ -49,6 +49,7 @@ def run(rep):
     for f in fns:
         byname.setdefault(f["name"].replace("boost::gil::", ""), []).append(f)
     circle(rep, byname)
+    trig_rounding(rep, byname)
     apply_ops(rep, fns)
     line(rep, byname)
     ellipse(rep, byname)
@@ -57,6 +58,8 @@ def run(rep):
     rep.floor("obligations:K3", 2)
     rep.floor("obligations:K4", 3)
     rep.floor("obligations:K5", 4)
+    rep.floor("obligations:K6", 1)
+    rep.floor("obligations:K7", 1)
 
 
 def circle(rep, byname):
@@ -175,6 +178,50 @@ def apply_ops(rep, fns):
             rep.violation("K3-apply", key, W + ("line.hpp" if kind == "line" else "circle.hpp"), det)
 
 
+def trig_rounding(rep, byname):
+    """K7: the trigonometric circle emits (round(r cos a), round(r sin a)): each coordinate is within 1/2 of the ideal point, so every
+    emitted point is within sqrt(1/2) < 1 pixel of the ideal circle (the mirror images inherit it, K1)"""
+    rep.rule("K7 trigonometric circle: both coordinates handed to the mirror lambda are the nearest integers (std::round / lround / nearbyint) of radius*cos(angle) and "
+             "radius*sin(angle) of the same angle => every point is within sqrt(1/2) pixel of the ideal circle")
+    f = (byname.get("trigonometric_circle_rasterizer::operator()") or [None])[0]
+    rep.count("obligations:K7")
+    if f is None:
+        rep.fail_analysis("trigonometric_circle_rasterizer not instantiated")
+        return
+    decl = {dd["name"]: dd.get("init") for dn, _ in R.find(f["body"], lambda x: x.get("k") == "Decl") for dd in dn["decls"] if dd.get("name")}
+    calls = [c for c, _ in R.calls_in(f["body"], lambda n: "operator()" in n and "trigonometric_circle_rasterizer" in n)]
+    prob, unknown = [], []
+    if len(calls) != 1:
+        prob.append("%d calls of the mirror lambda" % len(calls))
+    else:
+        args = R.key(calls[0]["args"][-1])
+        m = re.fullmatch(r"point_t\{(\w+),(\w+)\}", args)
+        if not m:
+            prob.append("mirror lambda called with %s" % args)
+        else:
+            forms = []
+            for v in m.groups():
+                k = R.key(decl.get(v)) if decl.get(v) is not None else None
+                core = r"\(radius \* (cos|sin)\((\w+)\)\)"
+                mm = re.fullmatch(r"(?:l?l?round|nearbyint|rint)\(%s\)" % core, k or "") or re.fullmatch(r"floor\(\(%s \+ 0\.5\)\)" % core, k or "")
+                trunc = re.fullmatch(core, k or "") or re.fullmatch(r"(?:floor|ceil|trunc)\(%s\)" % core, k or "")
+                if mm:
+                    forms.append(mm.groups())
+                elif trunc:
+                    prob.append("%s = %s is cut off, not rounded to the nearest integer" % (v, k))
+                else:
+                    unknown.append("%s = %s" % (v, k))
+            if len(forms) == 2 and (sorted(x[0] for x in forms) != ["cos", "sin"] or forms[0][1] != forms[1][1]):
+                prob.append("coordinates %s are not cos and sin of one angle" % (forms,))
+    key = "K7:trigonometric_circle_rasterizer::operator():rounding of both coordinates"
+    if unknown and not prob:
+        rep.incon("K7-trig-rounding", key, {"unrecognised coordinate expressions": unknown})
+    elif prob:
+        rep.violation("K7-trig-rounding", key, W + "circle.hpp", {"problems": prob, "consequence": "a truncated coordinate is up to 1 pixel off, together with the rounded one the point can be more than one pixel from the circle (radius 23: (19,11) is 21.954 from the centre)"})
+    else:
+        rep.ok("K7-trig-rounding", key, "x = round(r cos a), y = round(r sin a)")
+
+
 def line(rep, byname):
     rep.rule("K4 line: point_count == max(|dx|,|dy|)+1; one store per unit step from start.x to end.x (after transposing when width<height) plus the end point")
     f = (byname.get("bresenham_line_rasterizer::operator()") or [None])[0]
@@ -225,12 +272,223 @@ def line(rep, byname):
         rep.ok("K4-line", "one store per unit x-step + end point, transposed when width<height", det)
     else:
         rep.violation("K4-line", "K4:line:emitted points", W + "line.hpp", det)
+    line_accumulator(rep, f)
     rep.count("obligations:K4")
     fdecl = {dd["name"]: R.key(dd.get("init")) for dn, _ in R.find(f["body"], lambda x: x.get("k") == "Decl") for dd in dn["decls"] if dd.get("name") and dd.get("init") is not None}
     if fdecl.get("width") == "(abs((end.x - start.x)) + 1)" and fdecl.get("height") == "(abs((end.y - start.y)) + 1)" and fdecl.get("start") == "start_point" and fdecl.get("end") == "end_point":
         rep.ok("K4-line", "width/height are |dx|+1, |dy|+1 of the stored end points", {k: fdecl[k] for k in ("width", "height")})
     else:
         rep.violation("K4-line", "K4:line:extent", W + "line.hpp", {k: fdecl.get(k) for k in ("width", "height", "start", "end")})
+
+
+# ---------------------------------------------------------------------------------------------
+# K6: the error-term accumulator of the line rasteriser, in closed form
+class K6Unknown(Exception):
+    pass
+
+
+def _frac(n):
+    """a literal as a Fraction"""
+    from fractions import Fraction
+    n = R.strip(n)
+    if n.get("k") == "Float":
+        return Fraction(n["v"]).limit_denominator(1 << 20) if Fraction(n["v"]).denominator & (Fraction(n["v"]).denominator - 1) else Fraction(n["v"])
+    if n.get("k") == "Int" or ("const" in n and R.is_lit(str(n["const"]))):
+        return Fraction(int(n.get("v", n.get("const"))))
+    raise K6Unknown("threshold %s is not a literal" % R.key(n))
+
+
+def _sign(p):
+    """sign of a polynomial all of whose atoms are >= 0: '0', '+', '-', '>=0', '<=0' or None"""
+    if not p.t:
+        return "0"
+    cs = list(p.t.values())
+    c0 = p.t.get((), 0)
+    if all(c >= 0 for c in cs):
+        return "+" if c0 > 0 else ">=0"
+    if all(c <= 0 for c in cs):
+        return "-" if c0 < 0 else "<=0"
+    return None
+
+
+def _rat(n, env, case):
+    """arithmetic over the transposed extents as a quotient of polynomials (N, D), D > 0 in `case`"""
+    n = R.strip(n)
+    k = n.get("k")
+    one = Poly.const(1)
+    if k == "Cond":
+        c = R.strip(n["cond"])
+        if c.get("k") != "Binary" or c["op"] not in ("==", "!=", "<", "<=", ">", ">="):
+            raise K6Unknown("condition %s" % R.key(c))
+        (ln, ld), (rn_, rd) = _rat(c["l"], env, case), _rat(c["r"], env, case)
+        sg = _sign((ln * rd - rn_ * ld).subst(case))
+        truth = {"==": {"0": True, "+": False, "-": False}, "!=": {"0": False, "+": True, "-": True},
+                 "<": {"0": False, "+": False, "-": True, ">=0": False}, "<=": {"0": True, "-": True, "+": False, "<=0": True},
+                 ">": {"0": False, "+": True, "-": False, "<=0": False}, ">=": {"0": True, "+": True, "-": False, ">=0": True}}[c["op"]].get(sg)
+        if truth is None:
+            raise K6Unknown("cannot decide %s in the case %s" % (R.key(c), case))
+        return _rat(n["then"] if truth else n["else"], env, case)
+    if k in ("Int", "Float") or ("const" in n and k not in ("DeclRef", "Member") and R.is_lit(str(n["const"]))):
+        f = _frac(n)
+        return Poly.const(f.numerator), Poly.const(f.denominator)
+    if k == "DeclRef":
+        if n["name"] in env:
+            return env[n["name"]]
+        raise K6Unknown("free variable %s" % n["name"])
+    if k == "Unary" and n["op"] == "-":
+        a, b = _rat(n["e"], env, case)
+        return -a, b
+    if k == "Binary" and n["op"] in ("+", "-", "*", "/"):
+        (an, ad), (bn, bd) = _rat(n["l"], env, case), _rat(n["r"], env, case)
+        if n["op"] == "+":
+            return an * bd + bn * ad, ad * bd
+        if n["op"] == "-":
+            return an * bd - bn * ad, ad * bd
+        if n["op"] == "*":
+            return an * bn, ad * bd
+        sg = _sign(bn.subst(case))
+        if sg == "+":
+            return an * bd, ad * bn
+        if sg == "-":
+            return -(an * bd), -(ad * bn)
+        raise K6Unknown("divisor %s is not of one sign in the case %s" % (R.key(n["r"]), case))
+    raise K6Unknown("expression %s" % R.key(n))
+
+
+def _ev(p, vals):
+    tot = 0
+    for mon, c in p.t.items():
+        v = c
+        for a in mon:
+            v *= vals[a]
+        tot += v
+    return tot
+
+
+def line_accumulator(rep, f):
+    """K6: with a = |major extent|, b = |minor extent| (a >= b after the transposition K4 checks), the loop body
+         store; e += slope; if (e >= T) { e -= 1; y += dir; }
+    from e = 0 keeps e in [T-1, T) provided 0 <= slope <= 1, so the minor offset of the k-th emitted point is
+    s_k = floor(k*slope + 1 - T), k = 0..a-1.  The obligations are polynomial inequalities in (a, b), decided on the two
+    cases b == 0 and b >= 1 by the sign of the coefficients after the substitution b = 1+u, a = b+t (u, t >= 0); a failed
+    sufficient test is reported as a violation only with an integer witness (a, b, k) of the closed form."""
+    from fractions import Fraction
+    import math
+    rep.rule("K6 line accumulator: e stays in [T-1,T) (0 <= slope <= 1), so point k has minor offset floor(k*slope+1-T); for all a >= b >= 0, a >= 1: "
+             "offset(k) <= b for k < a (bounding box), b - offset(a-1) <= 1 (8-connected to the forced end point), |offset(k) - k*b/a| <= 1 (one pixel from the ideal segment)")
+    where = W + "line.hpp"
+    fd = {dd["name"]: dd for dn, _ in R.find(f["body"], lambda x: x.get("k") == "Decl") for dd in dn["decls"] if dd.get("name")}
+    loops = [x for x, _ in R.find(f["body"], lambda x: x.get("k") == "For")]
+    try:
+        if len(loops) != 1 or "slope" not in fd or "error_term" not in fd or "y_increment" not in fd:
+            raise K6Unknown("loop / slope / error_term / y_increment not found")
+        body = [R.strip(x) for x in R.strip(loops[0]["body"]).get("c", [])]
+        keys = [R.key(x) for x in body]
+        st = [i for i, x in enumerate(body) if "d_first" in keys[i] and x.get("k") in ("Call", "Assign")]
+        acc = [i for i, k in enumerate(keys) if k == "(error_term += slope)"]
+        ifs = [i for i, x in enumerate(body) if x.get("k") == "If"]
+        if len(body) != 3 or len(st) != 1 or len(acc) != 1 or len(ifs) != 1 or acc[0] > ifs[0]:
+            raise K6Unknown("loop body %s is not store / accumulate / conditional step" % keys)
+        cnd = R.strip(body[ifs[0]]["cond"])
+        # accepted forms:  e >= T   and   e >= T && y != end.y  (the step is withheld once the end row is reached)
+        clamp = False
+        if cnd.get("k") == "Binary" and cnd["op"] == "&&":
+            parts = [R.strip(cnd["l"]), R.strip(cnd["r"])]
+            cl = [x for x in parts if R.key(x) in ("(y != end.y)", "(end.y != y)")]
+            rest = [x for x in parts if x not in cl]
+            if len(cl) != 1 or len(rest) != 1:
+                raise K6Unknown("step condition %s" % R.key(cnd))
+            clamp, cnd = True, rest[0]
+        if cnd.get("k") != "Binary" or cnd["op"] != ">=" or R.key(cnd["l"]) != "error_term" or body[ifs[0]].get("else") is not None:
+            raise K6Unknown("step condition %s" % R.key(cnd))
+        T = _frac(cnd["r"])
+        then = sorted(R.key(x) for x in R.strip(body[ifs[0]]["then"]).get("c", []))
+        if then not in (sorted(["(--error_term)", "(y += y_increment)"]), sorted(["(error_term -= 1)", "(y += y_increment)"]), sorted(["(error_term--)", "(y += y_increment)"])):
+            raise K6Unknown("step body %s" % then)
+        if R.key(fd["error_term"].get("init")) not in ("0", "0.0") or R.key(fd["y_increment"].get("init")) != "((end.y >= start.y) ? 1 : -1)":
+            raise K6Unknown("error_term starts at %s, y_increment = %s" % (R.key(fd["error_term"].get("init")), R.key(fd["y_increment"].get("init"))))
+        first = 0 if st[0] < acc[0] else 1          # offsets s_first .. s_{first+a-1} are emitted
+        a, b = Poly.atom("a"), Poly.atom("b")
+        one = Poly.const(1)
+        env = {"width": (a + one, one), "height": (b + one, one)}
+        cases = {"b == 0": {"b": Poly.const(0), "a": one + Poly.atom("t")},
+                 "b >= 1": {"b": one + Poly.atom("u"), "a": one + Poly.atom("u") + Poly.atom("t")}}
+        if not (0 < T <= 1):
+            raise K6Unknown("threshold %s outside (0,1]" % T)
+        p_, q_ = T.numerator, T.denominator
+        det = {"threshold": str(T), "first_emitted_offset_index": first, "step withheld at the end row": clamp, "cases": {}}
+        bad = []
+
+        def offset(k, N, D, av, bv):
+            # floor(k*N/D + 1 - T) at integers
+            n, d = _ev(N, {"a": av, "b": bv}), _ev(D, {"a": av, "b": bv})
+            u = math.floor(Fraction(k * n, d) + 1 - T)
+            return min(u, bv) if clamp else u     # u is monotone in k, so withholding the step at y == end.y is min(b, u)
+
+        for cname, case in cases.items():
+            N, D = _rat(fd["slope"]["init"], env, case)
+            if _sign(D.subst(case)) != "+":
+                N, D = -N, -D
+            cd = {"slope": "(%r) / (%r)" % (N, D)}
+            det["cases"][cname] = cd
+            # lemma preconditions
+            pre = _sign(N.subst(case)) in ("0", "+", ">=0") and _sign((D - N).subst(case)) in ("0", "+", ">=0") and _sign(D.subst(case)) == "+"
+            cd["0 <= slope <= 1"] = pre
+            if not pre:
+                raise K6Unknown("0 <= slope <= 1 not established in the case %s (slope = %s)" % (cname, cd["slope"]))
+            last = a - one + Poly.const(first)
+            qc = Poly.const(q_)
+            obl = {
+                # floor(last*N/D + 1 - T) <= b   <=>   q*last*N < (q*b + p)*D
+                "bounding box: offset(last) <= b": ((qc * b + Poly.const(p_)) * D - qc * last * N, True),
+                # floor(last*N/D + 1 - T) >= b - 1   <=>   q*last*N + (2q - p)*D - q*b*D >= 0
+                "connected to the end point: offset(last) >= b-1": (qc * last * N + Poly.const(2 * q_ - p_) * D - qc * b * D, False),
+                # offset(k) - k*b/a <= 1 at k = last (linear in k, 0 at k = 0):  q*last*(N*a - b*D) <= p*D*a
+                "one pixel above the ideal segment: last*(slope - b/a) <= T": (Poly.const(p_) * D * a - qc * last * (N * a - b * D), False),
+                # offset(k) - k*b/a > -1:  k*(slope - b/a) - T > -1 for k = last:  q*last*(N*a - b*D) + (q-p)*D*a >= 0 suffices
+                "one pixel below the ideal segment: last*(slope - b/a) >= T-1": (qc * last * (N * a - b * D) + Poly.const(q_ - p_) * D * a, False),
+            }
+            for oname, (poly, strict) in obl.items():
+                sg = _sign(poly.subst(case))
+                ok = sg == "+" if strict else sg in ("0", "+", ">=0")
+                if clamp and oname.startswith("bounding"):
+                    ok = True               # offset = min(b, .) by construction
+                cd[oname] = "proved" if ok else "not proved"
+                if ok:
+                    continue
+                wit = None
+                for av in range(1, 41):
+                    for bv in ([0] if cname == "b == 0" else range(1, av + 1)):
+                        for k in range(first, first + av):
+                            s = offset(k, N, D, av, bv)
+                            viol = (s > bv) if oname.startswith("bounding") else ((bv - s > 1) if oname.startswith("connected") and k == first + av - 1 else
+                                    (abs(Fraction(s) - Fraction(k * bv, av)) > 1 if oname.startswith("one pixel") else False))
+                            if viol:
+                                wit = {"|major extent| a": av, "|minor extent| b": bv, "point k": k, "minor offset": s, "ideal": str(Fraction(k * bv, av))}
+                                break
+                        if wit:
+                            break
+                    if wit:
+                        break
+                cd[oname] = {"witness": wit} if wit else "not proved, no witness up to a = 40"
+                bad.append((cname, oname, wit))
+        names = ["bounding box", "connected to the end point", "one pixel above the ideal segment", "one pixel below the ideal segment"]
+        for nm in names:
+            key = "K6:bresenham_line_rasterizer::operator():%s" % nm
+            mine = [x for x in bad if x[1].startswith(nm)]
+            refuted = [x for x in mine if x[2]]
+            rep.count("obligations:K6")
+            if refuted:
+                c, o, w = refuted[0]
+                rep.violation("K6-line-accumulator", key, where, {"refuted": "%s [case %s]" % (o, c),
+                              "example": "line (0,0)->(%d,%d): point %d has minor coordinate %d, the ideal segment is at %s" % (w["|major extent| a"], w["|minor extent| b"], w["point k"], w["minor offset"], w["ideal"]), "detail": det})
+            elif mine:
+                rep.incon("K6-line-accumulator", key, {"at": where, "unproved": [(c, o) for c, o, _ in mine], "detail": det})
+            else:
+                rep.ok("K6-line-accumulator", key, det)
+    except K6Unknown as e:
+        rep.count("obligations:K6")
+        rep.incon("K6-line-accumulator", "K6:bresenham_line_rasterizer::operator()", {"at": where, "unrecognised": str(e)})
 
 
 def ellipse(rep, byname):
